@@ -36,7 +36,17 @@ def shapes():
             for combo in itertools.product(kinds, repeat=n):
                 for with_o in (False, True):
                     res.append((mode, combo, with_o))
+    # -S and -c together: compilation stops after the compiler proper (as with gcc), in either order
+    for mode in ('Sc', 'cS'):
+        for n in (1, 2):
+            for combo in itertools.product('cs', repeat=n):
+                for with_o in (False, True):
+                    res.append((mode, combo, with_o))
     return res
+
+
+def base_mode(mode):
+    return 'S' if mode in ('Sc', 'cS') else mode
 
 
 def base_name(i):
@@ -47,6 +57,7 @@ def base_name(i):
 def plan(mode, combo, with_o):
     """-> (legal, steps, outputs_per_input, final_output)  steps: list of (role, input index)"""
     n = len(combo)
+    mode = base_mode(mode)
     legal = not (with_o and n > 1 and mode in ('E', 'S', 'c'))
     steps = []
     outs = []
@@ -82,6 +93,7 @@ def run_scenario(a):
     d = os.path.join(work, 'sc%d' % sid)
     os.makedirs(os.path.join(d, 'cnt'))
     legal, steps, outs, final = plan(mode, combo, with_o)
+    full_mode, mode = mode, base_mode(mode)
     names = []
     main_at = 0
     for i, k in enumerate(combo):
@@ -103,7 +115,9 @@ def run_scenario(a):
             os.unlink(tmpc)
             if rc != 0:
                 return {'sid': sid, 'harness_error': 'cannot prepare input: ' + e.decode()[-200:]}
-    args = {'E': ['-E'], 'S': ['-S'], 'c': ['-c'], 'link': []}[mode]
+    args = {'E': ['-E'], 'S': ['-S'], 'c': ['-c'], 'link': [], 'Sc': ['-S', '-c'], 'cS': ['-c', '-S']}[full_mode]
+    if natural and natural[0] == 'include-missing':
+        args += ['-include', 'no_such_header.h']
     oname = None
     if with_o:
         oname = {'E': 'out.i', 'S': 'out.s', 'c': 'out.o', 'link': 'out.exe'}[mode]
@@ -146,13 +160,25 @@ def run_scenario(a):
     fired = any(f[2] == 'fault' for f in log)
     started = [(f[1]) for f in log if f[2] == 'start']
     content = {}
+    fkind = {}
     for w in watched:
         p = os.path.join(d, w)
         content[w] = open(p, 'rb').read() if os.path.isfile(p) else None
+        c = content[w]
+        if c is None:
+            fkind[w] = 'absent'
+        elif c == SENT:
+            fkind[w] = 'sentinel'
+        elif c[:4] == b'\x7fELF' and len(c) > 18:
+            fkind[w] = {1: 'elf-rel', 2: 'elf-exec', 3: 'elf-dyn'}.get(c[16] | (c[17] << 8), 'elf-other')
+        elif c and b'\0' not in c:
+            fkind[w] = 'text'
+        else:
+            fkind[w] = 'other'
     new = sorted((after - before) - {'log', 'cnt'})
     res = {'sid': sid, 'rc': rc, 'fired': fired, 'left': left, 'new': new, 'content_is_sentinel': {w: (c == SENT) for w, c in content.items()},
            'exists': {w: c is not None for w, c in content.items()}, 'cross_unlink': [u for u in unl if u not in mk],
-           'stdout_len': len(so), 'stderr': se.decode('utf-8', 'replace')[-300:], 'started': started, 'args': args,
+           'file_kind': fkind, 'stdout_len': len(so), 'stderr': se.decode('utf-8', 'replace')[-300:], 'started': started, 'args': args,
            'nmk': len(mk), 'nprocs': len(started)}
     shutil.rmtree(d, ignore_errors=True)
     return res
@@ -244,15 +270,16 @@ def run(ctx):
     sid = 0
     meta = {}
     allshapes = shapes()
-    for (mode, combo, with_o) in allshapes:
-        legal, steps, outs, final = plan(mode, combo, with_o)
-        sname = shape_name(mode, combo, with_o)
+    for (fmode, combo, with_o) in allshapes:
+        legal, steps, outs, final = plan(fmode, combo, with_o)
+        sname = shape_name(fmode, combo, with_o)
+        mode = base_mode(fmode)
         if not legal:
             for sentinel in (False, True):
-                scen.append((sid, cc, work, mode, combo, with_o, None, None, sentinel)); meta[sid] = (sname, 'illegal', None, sentinel, steps, outs, final); sid += 1
+                scen.append((sid, cc, work, fmode, combo, with_o, None, None, sentinel)); meta[sid] = (sname, 'illegal', None, sentinel, steps, outs, final); sid += 1
             continue
         # success run
-        scen.append((sid, cc, work, mode, combo, with_o, None, None, False)); meta[sid] = (sname, 'success', None, False, steps, outs, final); sid += 1
+        scen.append((sid, cc, work, fmode, combo, with_o, None, None, False)); meta[sid] = (sname, 'success', None, False, steps, outs, final); sid += 1
         # injected faults: every step
         cnt = {}
         for (role, inp) in steps:
@@ -261,7 +288,7 @@ def run(ctx):
             hs = hows if (ctx.tier == 'thorough' or len(combo) < 3) else [hows[(sid + k) % 4], hows[(sid + k + 1) % 4]]
             for how in hs:
                 for sentinel in ((False, True) if (ctx.tier == 'thorough' or how in ('exit1', 'segv')) else (bool((sid + k) % 2),)):
-                    scen.append((sid, cc, work, mode, combo, with_o, (role, k, how), None, sentinel))
+                    scen.append((sid, cc, work, fmode, combo, with_o, (role, k, how), None, sentinel))
                     meta[sid] = (sname, 'fault', (role, k, how, inp), sentinel, steps, outs, final); sid += 1
         # natural failures
         nat = []
@@ -274,13 +301,15 @@ def run(ctx):
                 nat.append(('missing', i))
             if kind == 'c' and mode != 'E':
                 nat.append(('directory', i))
+        if 'c' in combo:
+            nat.append(('include-missing', combo.index('c')))
         if with_o and any(o for o in outs) or (with_o and final):
             nat += [('odir-missing',), ('o-under-file',)]
         if ctx.quick() and len(combo) == 3:
             nat = nat[::2]
         for nf in nat:
             sentinel = (sid % 2 == 0) and nf[0] not in ('odir-missing', 'o-under-file')
-            scen.append((sid, cc, work, mode, combo, with_o, None, nf, sentinel)); meta[sid] = (sname, 'natural', nf, sentinel, steps, outs, final); sid += 1
+            scen.append((sid, cc, work, fmode, combo, with_o, None, nf, sentinel)); meta[sid] = (sname, 'natural', nf, sentinel, steps, outs, final); sid += 1
     sigchld_cases(ctx, cc, work)
     dep_option_cases(ctx, cc, work)
     results = core.pmap(run_scenario, scen, chunksize=4)
@@ -315,6 +344,11 @@ def run(ctx):
                     viol('extra-file' if set(r['new']) - set(exp) else 'missing-output', 'after success the directory gained %s, expected exactly %s' % (r['new'], exp))
                 if sname.startswith('E(') and r['stdout_len'] == 0:
                     viol('missing-output', '-E wrote nothing to stdout')
+                for w, fk in sorted(r['file_kind'].items()):
+                    want = {'.s': ('text',), '.i': ('text',), '.o': ('elf-rel',)}.get(os.path.splitext(w)[1], ('elf-exec', 'elf-dyn'))
+                    ctx.saw(('output-kind', os.path.splitext(w)[1] or 'executable', fk))
+                    if fk not in want and fk != 'absent':
+                        viol('wrong-output-kind', '%s is %s, expected %s' % (w, fk, '/'.join(want)))
             continue
         if kind == 'illegal':
             ctx.count('illegal_shapes')
